@@ -30,6 +30,7 @@ type session struct {
 	pause  func()   // called by the server before reading each line (slow/bursty reader)
 	onLine func(string)
 	regs   []string
+	from   []int // link the line of the same index arrived on
 }
 
 func startSession(e *Env, o ClientOpts, plan func(l *simnet.Link)) *session {
@@ -61,6 +62,7 @@ func startSession(e *Env, o ClientOpts, plan func(l *simnet.Link)) *session {
 				t := strings.TrimSuffix(ln, "\n")
 				t = strings.TrimSuffix(t, "\r")
 				s.lines = append(s.lines, t)
+				s.from = append(s.from, l.ID)
 				if s.onLine != nil {
 					s.onLine(t)
 				}
@@ -277,6 +279,105 @@ func sendOrder(e *Env) {
 	}
 	if !s.c.Connected() {
 		e.Violation("harness", "connection went down during a run without faults")
+	}
+	if g.Pct(30) && !e.S.Failed() {
+		sendAcrossReconnect(e, g, s)
+		return
+	}
+	s.c.Close()
+}
+
+// sendAcrossReconnect: the server hangs up while user tasks are still sending;
+// a DISCONNECTED handler reconnects at once and hands over numbered lines on
+// the new connection.  Whatever is handed over after that Connect has returned
+// must arrive exactly once and in order; lines of the racing senders that do
+// arrive on the new connection must still be in their sender's order, once.
+func sendAcrossReconnect(e *Env, g G, s *session) {
+	e.S.Count("fault.reconnect-from-disconnected-handler-with-senders")
+	first := s.l.ID
+	nChat := g.Range(1, 3)
+	stopChat := false
+	for j := 0; j < nChat; j++ {
+		j := j
+		e.S.Spawn(fmt.Sprintf("chatter%d", j), func() {
+			for k := 0; k < 300 && !stopChat; k++ {
+				s.c.Raw(fmt.Sprintf("PRIVMSG #c :c%d.%d", j, k))
+				if e.S.Choose(3) == 0 {
+					simrt.Sleep(time.Duration(e.S.Choose(3)) * time.Millisecond)
+				}
+			}
+		})
+	}
+	K := g.Range(1, 40)
+	reconnected, handed := false, false
+	var connErr error
+	s.c.HandleFunc(client.DISCONNECTED, func(c *client.Conn, l *client.Line) {
+		if reconnected {
+			return
+		}
+		reconnected = true
+		if connErr = c.Connect(); connErr != nil {
+			handed = true
+			return
+		}
+		for k := 0; k < K; k++ {
+			c.Raw(fmt.Sprintf("PRIVMSG #c :h.%d", k))
+		}
+		handed = true
+	})
+	simrt.Sleep(time.Duration(g.S.Choose(20)) * time.Millisecond)
+	s.l.CloseByServer()
+	if !simrt.BlockFor("send.main", "the DISCONNECTED handler to reconnect and hand over its lines", time.Hour, func() bool { return handed }) {
+		e.Violation("sender-stuck", "after the server hung up, the DISCONNECTED handler that reconnects and sends %d lines did not return (reconnected=%v)\n%s", K, reconnected, e.S.TaskDump())
+		return
+	}
+	if connErr != nil {
+		e.Violation("harness-connect", "reconnect from the DISCONNECTED handler failed: %v", connErr)
+		return
+	}
+	stopChat = true
+	newLines := func() []string {
+		var out []string
+		for i, ln := range s.lines {
+			if s.from[i] != first {
+				out = append(out, ln)
+			}
+		}
+		return out
+	}
+	count := func() int {
+		n := 0
+		for _, ln := range newLines() {
+			if strings.HasPrefix(ln, "PRIVMSG #c :h.") {
+				n++
+			}
+		}
+		return n
+	}
+	simrt.BlockFor("send.main", "the handed-over lines to arrive", 10*time.Minute, func() bool { return count() >= K })
+	simrt.Settle(30 * time.Second)
+	e.Check()
+	next := 0
+	lastChat := map[int]int{}
+	for _, ln := range newLines() {
+		var k, j int
+		if _, err := fmt.Sscanf(ln, "PRIVMSG #c :h.%d", &k); err == nil {
+			if k != next {
+				e.Violation("exactly-once", "after the reconnect the handler handed over lines h.0..h.%d on a connection that stayed up; the server received h.%d where h.%d was due (lines of the new connection: %s)", K-1, k, next, abbrev(newLines()))
+				return
+			}
+			next++
+		} else if _, err := fmt.Sscanf(ln, "PRIVMSG #c :c%d.%d", &j, &k); err == nil {
+			if last, seen := lastChat[j]; seen && k <= last {
+				e.Violation("order", "sender %d: line %d arrived after line %d on the new connection", j, k, last)
+				return
+			}
+			lastChat[j] = k
+		}
+	}
+	if next != K {
+		e.Violation("exactly-once", "after the reconnect the handler handed over %d lines on a connection that stayed up (Connect had returned nil); %d arrived (lines of the new connection: %s)", K, next, abbrev(newLines()))
+		return
 	}
 	s.c.Close()
 }
